@@ -15,6 +15,7 @@ from ..gen import ctrl
 
 MSG = re.compile(r"Function '([^']+)' has excessive nesting depth \((\d+)\)")
 LANGS = ("py", "ts", "js", "rs")
+JSX_MARK = "\n// --- component with JSX ---\n"
 LANGNAME = {"py": "python", "ts": "typescript", "js": "javascript", "rs": "rust"}
 
 
@@ -74,6 +75,9 @@ def render_project(sk: dict):
         indent = "    " if (lang == "py" and sk["indent"] == "\t" and False) else sk["indent"]
         text, fx = ctrl.render(lang, funcs, indent=indent, gap=sk["gap"], prefix="u%d" % sk["idx"])
         fname = "mod%d%s" % (sk["idx"], ctrl.EXT[lang])
+        if lang == "js" and sk["idx"] % 3 == 0:
+            # a React-style component at the end of the file: JSX is everyday JavaScript, and the functions above it are still functions
+            text += JSX_MARK + "function View%d(props) {\n  return <ul className=\"list\">{props.items.map((i) => <li key={i}>{i}</li>)}</ul>;\n}\n" % sk["idx"]
         files[fname] = text
         facts[lang] = fx
     return files, facts
@@ -81,7 +85,7 @@ def render_project(sk: dict):
 
 def exec_case(sk: dict) -> dict:
     files, facts = render_project(sk)
-    bad = [f for f, t in files.items() if not ctrl.syntax_ok(f.rsplit(".", 1)[1], t)]
+    bad = [f for f, t in files.items() if not ctrl.syntax_ok(f.rsplit(".", 1)[1], t.split(JSX_MARK)[0])]  # (the independent syntax check has no JSX grammar)
     if bad:
         return {"generator_inconsistent": bad}
     maxd = max(fx["depth"] for lang in facts for fx in facts[lang].values())
